@@ -79,17 +79,17 @@ type Native struct {
 //   - Boxed != nil: "the canonical encoding of this Go value" (codec output); opaque otherwise
 //   - Nil: nil slice
 type StrV struct {
-	T     *Term
-	Bytes []*Term
-	IsB   bool
-	IsArr bool
-	fmtLit bool
-	fullKey bool // iterator key that already includes the iterated prefix
+	T         *Term
+	Bytes     []*Term
+	IsB       bool
+	IsArr     bool
+	fmtLit    bool
+	fullKey   bool // iterator key that already includes the iterated prefix
 	FromStore bool // read from the arbitrary pre-state of a store (invariant I2: written by the module's setters)
-	Nil   bool
-	Boxed Val
-	BoxT  types.Type
-	BoxK  string // encoding family: "" (codec), "abi"
+	Nil       bool
+	Boxed     Val
+	BoxT      types.Type
+	BoxK      string // encoding family: "" (codec), "abi"
 }
 
 func strLit(s string) *StrV {
